@@ -6,6 +6,7 @@ import (
 	"go/types"
 	"strings"
 
+	"golang.org/x/tools/go/packages"
 	"golang.org/x/tools/go/ssa"
 )
 
@@ -76,85 +77,99 @@ func c11BootstrapLenient(c *Ctx) {
 					}
 					return true
 				})
-				if ctor == nil {
+				isCtor := func(cl *ssa.Call) bool {
+					o := staticCalleeObj(&cl.Call)
+					return o != nil && o.Pkg() == pe.Types && strings.HasSuffix(o.Name(), "Unmarshaler")
+				}
+				var ctors []*ssa.Call
+				if ctor != nil {
+					ctors = append(ctors, ctor)
+				} else {
+					// a two-pass helper that is handed the constructor as a function: `newUnmarshaler(nil)`; the
+					// constructor calls are in the literals passed at every call site of the helper
+					ctors = c11CtorsThroughParam(p, pk, f, call.Call.Args[0], isCtor)
+				}
+				if len(ctors) == 0 {
 					c.Ob(rule, fmt.Sprintf("%s/first-pass#%d", ssaFuncName(f), n), call.Pos(), false, true, "the unmarshaler handed to bootstrapResolver is not a protoencoding constructor call: undecided")
 					continue
 				}
-				ctorName := staticCalleeObj(&ctor.Call).Name()
-				// flags set by the options at this call site
-				set := map[string]bool{}
-				for _, a := range ctor.Call.Args[1:] {
-					sliceBack(a, func(x ssa.Value) bool {
-						if cl, ok := x.(*ssa.Call); ok {
-							if sc := cl.Call.StaticCallee(); sc != nil && sc.Pkg != nil && sc.Pkg.Pkg == pe.Types {
-								for k := range optionSets(sc) {
-									set[k] = true
+				for _, ctor := range ctors {
+					ctorName := staticCalleeObj(&ctor.Call).Name()
+					// flags set by the options at this call site
+					set := map[string]bool{}
+					for _, a := range ctor.Call.Args[1:] {
+						sliceBack(a, func(x ssa.Value) bool {
+							if cl, ok := x.(*ssa.Call); ok {
+								if sc := cl.Call.StaticCallee(); sc != nil && sc.Pkg != nil && sc.Pkg.Pkg == pe.Types {
+									for k := range optionSets(sc) {
+										set[k] = true
+									}
 								}
 							}
-						}
-						return true
-					})
-				}
-				// the concrete type: what the constructor (or the unexported constructor it wraps) returns
-				var impl *types.Named
-				for _, g := range reachSSA(ctor.Call.StaticCallee(), 1) {
-					for _, r := range returnsOf(g) {
-						if len(r.Results) == 0 {
-							continue
-						}
-						v := stripConv(r.Results[0])
-						if mi, ok := v.(*ssa.MakeInterface); ok {
-							v = stripConv(mi.X)
-						}
-						if nt, ok := derefType(v.Type()).(*types.Named); ok && nt.Obj().Pkg() == pe.Types {
-							if _, isStruct := nt.Underlying().(*types.Struct); isStruct {
-								impl = nt
+							return true
+						})
+					}
+					// the concrete type: what the constructor (or the unexported constructor it wraps) returns
+					var impl *types.Named
+					for _, g := range reachSSA(ctor.Call.StaticCallee(), 1) {
+						for _, r := range returnsOf(g) {
+							if len(r.Results) == 0 {
+								continue
+							}
+							v := stripConv(r.Results[0])
+							if mi, ok := v.(*ssa.MakeInterface); ok {
+								v = stripConv(mi.X)
+							}
+							if nt, ok := derefType(v.Type()).(*types.Named); ok && nt.Obj().Pkg() == pe.Types {
+								if _, isStruct := nt.Underlying().(*types.Struct); isStruct {
+									impl = nt
+								}
 							}
 						}
 					}
-				}
-				verdict, why := false, "no store into DiscardUnknown found"
-				if impl != nil {
-					um := p.Func("private/pkg/protoencoding", impl.Obj().Name()+".Unmarshal")
-					if um != nil && um.Obj != nil {
-						for _, b := range p.SSAFunc(um.Obj).Blocks {
-							for _, ins := range b.Instrs {
-								st, ok := ins.(*ssa.Store)
-								if !ok {
-									continue
-								}
-								fa, ok := st.Addr.(*ssa.FieldAddr)
-								if !ok || !strings.HasSuffix(fieldName(fa.X.Type(), fa.Field), ".DiscardUnknown") {
-									continue
-								}
-								v := stripConv(st.Val)
-								neg := false
-								if u, ok := v.(*ssa.UnOp); ok && u.Op == token.NOT {
-									neg, v = true, stripConv(u.X)
-								}
-								switch t := v.(type) {
-								case *ssa.Const:
-									val := t.Value != nil && t.Value.String() == "true"
-									verdict, why = val != neg, "constant"
-								case *ssa.UnOp:
-									if ffa, ok := t.X.(*ssa.FieldAddr); ok && t.Op == token.MUL {
-										flag := fieldName(ffa.X.Type(), ffa.Field)
-										if neg {
-											verdict, why = !set[flag], "negation of "+flag+", which no option here sets"
-										} else {
-											verdict, why = set[flag], flag+", set by an option here: "+fmt.Sprint(set[flag])
+					verdict, why := false, "no store into DiscardUnknown found"
+					if impl != nil {
+						um := p.Func("private/pkg/protoencoding", impl.Obj().Name()+".Unmarshal")
+						if um != nil && um.Obj != nil {
+							for _, b := range p.SSAFunc(um.Obj).Blocks {
+								for _, ins := range b.Instrs {
+									st, ok := ins.(*ssa.Store)
+									if !ok {
+										continue
+									}
+									fa, ok := st.Addr.(*ssa.FieldAddr)
+									if !ok || !strings.HasSuffix(fieldName(fa.X.Type(), fa.Field), ".DiscardUnknown") {
+										continue
+									}
+									v := stripConv(st.Val)
+									neg := false
+									if u, ok := v.(*ssa.UnOp); ok && u.Op == token.NOT {
+										neg, v = true, stripConv(u.X)
+									}
+									switch t := v.(type) {
+									case *ssa.Const:
+										val := t.Value != nil && t.Value.String() == "true"
+										verdict, why = val != neg, "constant"
+									case *ssa.UnOp:
+										if ffa, ok := t.X.(*ssa.FieldAddr); ok && t.Op == token.MUL {
+											flag := fieldName(ffa.X.Type(), ffa.Field)
+											if neg {
+												verdict, why = !set[flag], "negation of "+flag+", which no option here sets"
+											} else {
+												verdict, why = set[flag], flag+", set by an option here: "+fmt.Sprint(set[flag])
+											}
 										}
 									}
 								}
 							}
+						} else {
+							why = "no Unmarshal method found for " + impl.Obj().Name()
 						}
 					} else {
-						why = "no Unmarshal method found for " + impl.Obj().Name()
+						why = "concrete unmarshaler type not resolved"
 					}
-				} else {
-					why = "concrete unmarshaler type not resolved"
+					c.Ob(rule, fmt.Sprintf("%s/first-pass/%s", ssaFuncName(f), ctorName), call.Pos(), verdict, true, "the first pass built by %s runs with DiscardUnknown on: %v (%s)", ctorName, verdict, why)
 				}
-				c.Ob(rule, fmt.Sprintf("%s/first-pass/%s", ssaFuncName(f), ctorName), call.Pos(), verdict, true, "the first pass built by %s runs with DiscardUnknown on: %v (%s)", ctorName, verdict, why)
 			}
 		}
 	}
@@ -180,4 +195,75 @@ func c11BootstrapLenient(c *Ctx) {
 	if n == 0 {
 		c.Fail(rule, "anchor", token.NoPos, "no call of bootstrapResolver found")
 	}
+}
+
+// c11CtorsThroughParam: v is the result of calling a function-typed parameter of f with a nil resolver; the result lists
+// the constructor calls in the function literals handed in for that parameter at every static call site of f in the
+// package (nil when a call site passes something that is not a literal returning a constructor call).
+func c11CtorsThroughParam(p *Prog, pk *packages.Package, f *ssa.Function, v ssa.Value, isCtor func(*ssa.Call) bool) []*ssa.Call {
+	var par *ssa.Parameter
+	sliceBack(v, func(x ssa.Value) bool {
+		if cl, ok := x.(*ssa.Call); ok && par == nil {
+			if pp, ok := stripConv(cl.Call.Value).(*ssa.Parameter); ok && pp.Parent() == f {
+				if _, isSig := pp.Type().Underlying().(*types.Signature); isSig {
+					par = pp
+				}
+			}
+		}
+		return true
+	})
+	if par == nil {
+		return nil
+	}
+	idx := -1
+	for i, fp := range f.Params {
+		if fp == par {
+			idx = i
+		}
+	}
+	var out []*ssa.Call
+	sites := 0
+	for _, fr := range p.FuncsOf(pk) {
+		if fr.Obj == nil {
+			continue
+		}
+		for _, g := range allSSAFuncs(p.SSAFunc(fr.Obj)) {
+			for _, call := range callsIn(g) {
+				if call.Call.StaticCallee() != f || idx < 0 || idx >= len(call.Call.Args) {
+					continue
+				}
+				sites++
+				var lit *ssa.Function
+				switch t := stripConv(call.Call.Args[idx]).(type) {
+				case *ssa.MakeClosure:
+					lit, _ = t.Fn.(*ssa.Function)
+				case *ssa.Function:
+					lit = t
+				}
+				if lit == nil || len(lit.Blocks) == 0 {
+					return nil
+				}
+				found := false
+				for _, r := range returnsOf(lit) {
+					if len(r.Results) == 0 {
+						continue
+					}
+					sliceBack(r.Results[0], func(x ssa.Value) bool {
+						if cl, ok := x.(*ssa.Call); ok && isCtor(cl) {
+							out = append(out, cl)
+							found = true
+						}
+						return true
+					})
+				}
+				if !found {
+					return nil
+				}
+			}
+		}
+	}
+	if sites == 0 {
+		return nil
+	}
+	return out
 }
